@@ -43,7 +43,7 @@ func init() {
 			}
 			return 16
 		},
-		Rule: "each case = one random history A of 40-70 operations (SetBalance, SetValue/DeleteValue on keys with shared prefixes, contract init/owner/flags/deploy/accept/reject/activate/SetCode, AddDeposit/PaySteps/WithdrawDeposit on contract accounts, GetSnapshot, Reset to a random earlier snapshot) over 6 accounts, executed on the real WorldState in lock-step with a map model and interleaved with PRNG-chosen regime actions (ClearCache, Flush of a snapshot, flush+reload by hash, WorldStateFromSnapshot, observation through GetAccountState/GetAccountSnapshot/read-only state); run C = the same operations under a different regime and DB (MapDB or goleveldb dir); run B = direct construction of A's final contents in another order with touch-and-revert detours. Non-trivial = distinct run (hash of its full action log) in which a snapshot was re-observed after a later mutation, a Reset happened and at least one of ClearCache/Flush/reload happened.",
+		Rule: "each case = one random history A of 40-70 operations (SetBalance, SetValue/DeleteValue on keys with shared prefixes, contract init/owner/flags/deploy/accept/reject/activate/SetCode, AddDeposit/PaySteps/WithdrawDeposit on contract accounts, GetSnapshot, Reset to a random earlier snapshot) over 6 accounts, executed on the real WorldState in lock-step with a map model and interleaved with PRNG-chosen regime actions (ClearCache, Flush of a snapshot, flush+reload by hash, WorldStateFromSnapshot, observation through GetAccountState/GetAccountSnapshot/read-only state); run C = the same operations under a different regime and DB (MapDB or goleveldb dir); run B = direct construction of A's final contents in another order with touch-and-revert detours. 1 case in 5 adds a concurrent phase: on a MapDB with the node-cache manager attached and EnableNodeCache on every state, 3 world states (random account ops + 42 filler accounts at the same trie positions) are flushed, then 4 goroutines x 30 rounds reload random ones by hash (NewWorldState+EnableNodeCache or NewWorldSnapshot), compare every getter with the contents recorded for that hash and recompute the hash, while a fifth goroutine builds and flushes 6 further states. Non-trivial = distinct run (hash of its full action log) in which a snapshot was re-observed after a later mutation, a Reset happened and at least one of ClearCache/Flush/reload happened.",
 		MinNonTrivial: func(t string) int {
 			if t == ev.Thorough {
 				return 40000
@@ -51,7 +51,8 @@ func init() {
 			return 400
 		},
 		Required: []string{"snapshot_reobservations_after_mutation", "resets", "clearcache", "flushes", "reloads",
-			"hash_same_content_pairs", "emptied_account_hash_checks", "acct_snapshot_reobservations", "leveldb_reopens", "direct_builds", "op_AddDeposit", "op_PaySteps", "op_Withdraw"},
+			"hash_same_content_pairs", "emptied_account_hash_checks", "acct_snapshot_reobservations", "leveldb_reopens", "direct_builds", "op_AddDeposit", "op_PaySteps", "op_Withdraw",
+			"concurrent_reload_rounds", "concurrent_flushes"},
 		Assumptions: []string{
 			"the 60-line map model in verif/lib/state states the AccountState API semantics (old-value returns, contract life cycle) as read off account.go",
 			"'empty' = zero balance, no storage entry, not a contract, no state flag (accountData.IsEmpty)",
@@ -641,6 +642,11 @@ func run(c *ev.Ctx) {
 			panic(fmt.Sprintf("harness: direct construction does not reach the target contents\nwant %s\ngot  %s", a.model.Key(), b.model.Key()))
 		}
 		c.Count("direct_builds", 1)
+		if r.Intn(5) == 0 {
+			c.Eval(1)
+			c.Note("concurrent reload phase")
+			concurrentReload(c, r)
+		}
 		if c.WantSample() {
 			n := len(a.log)
 			if n > 40 {
